@@ -271,8 +271,11 @@ pub fn gen_cmd_world(rng: &mut Rng, first_party_in_registry: bool) -> CmdWorld {
                     dev_criteria: if rng.chance(1, 3) { Some(if rng.chance(1, 3) { vec![] } else { gen::gen_crit_list(rng, &crits, false) }) } else { None },
                     dependency_criteria: {
                         let mut m = CriteriaMap::new();
+                        // (an unversioned policy with dependency-criteria is refused by
+                        // check_crate_policies when the crate occurs in several versions)
+                        let unique = graph.pkgs.iter().filter(|q| q.name == p.name).count() == 1;
                         for (d, _) in p.deps.iter() {
-                            if rng.chance(1, 6) {
+                            if unique && rng.chance(1, 6) {
                                 m.insert(gen::sp(graph.pkgs[*d].name.clone()), if rng.chance(1, 3) { vec![] } else { gen::gen_crit_list(rng, &crits, false) });
                             }
                         }
@@ -747,7 +750,7 @@ pub fn exec_history(r: &mut Report, rng: &mut Rng, idx: u64, mut w: CmdWorld, p:
 
 pub fn run(r: &mut Report) {
     let (shard, nshards) = shard();
-    let n = if r.thorough() { 6400 } else { 640 } / nshards;
+    let n = if r.thorough() { 9600 } else { 1600 } / nshards;
     let mut rng = Rng::new(r.seed.wrapping_add(shard.wrapping_mul(15485863)) ^ 0xC0FFEE);
     let only: Option<u64> = std::env::var("VERIF_ONLY_CMD").ok().and_then(|s| s.parse().ok());
     let base = r.evaluations;
